@@ -53,7 +53,7 @@ def evaluate(op, schemas, value, extra):
         return fingerprint(gen)
     if op == "panel":
         from . import panel
-        return fingerprint(panel.run)
+        return fingerprint(lambda: panel.run() + panel.run_ops())
     if op == "eq":
         return fingerprint(lambda: (schemas[0] == schemas[1], schemas[0] != schemas[1]))
     raise ValueError(op)
